@@ -218,6 +218,16 @@ def main():
             found = search_neighbourhood(pid, cfg, binp, ops, [], workdir, rng, known)
             p = found or write_replay(workdir, "%s-obligation.json" % pid, dict(what, what="proof obligation of Props/%s.lean no longer checks against the regenerated model" % pid))
             violations.append((p, "" if found else "no-failing-input-found"))
+    if os.environ.get("NF_HARVEST") == "1":
+        # (maintenance only, never part of a registered command) save a small witness scenario per finding
+        for k in known:
+            wpath = os.path.join(VERIF, k["witness"])
+            cases = stats["covered_cases"].get(k["id"], [])
+            if cases and not os.path.exists(wpath):
+                best = min(cases, key=lambda ln: sum(len(o.get("hex", "")) for o in scenario_of(ops, ln)))
+                os.makedirs(os.path.dirname(wpath), exist_ok=True)
+                sc = [dict((kk, vv) for kk, vv in o.items() if kk != "sid") for o in scenario_of(ops, best)]
+                json.dump({"finding": k["id"], "ops": sc}, open(wpath, "w"), indent=1)
     for k in known:
         ok = stats["known_seen"].get(k["id"], 0)
         if ok:
@@ -245,7 +255,7 @@ def analyse(pid, cfg, ops, verdicts, known):
     view = set(cfg["view"])
     known_classes = {k["class"]: k["id"] for k in known}
     st = {"evaluations": 0, "digests": set(), "nontrivial": 0, "oracle_true": 0, "oracle_fail_unlisted": [], "covered": 0,
-          "disagree": [], "kinds": {}, "tags": {}, "impl_outcomes": {}, "known_seen": {}, "outside_classes": 0, "samples": [],
+          "disagree": [], "kinds": {}, "tags": {}, "impl_outcomes": {}, "known_seen": {}, "covered_cases": {}, "outside_classes": 0, "samples": [],
           "diffparts": {}}
     cur_kind = "?"
     for i, o in enumerate(ops):
@@ -266,7 +276,7 @@ def analyse(pid, cfg, ops, verdicts, known):
         for d in diff:
             st["diffparts"][d] = st["diffparts"].get(d, 0) + 1
         orc = v.get("oracle", {}).get(key, True)
-        classes = [c for c in v.get("classes", []) if c in cfg.get("classes", [])]
+        classes = [c for c in v.get("classes", []) if c in known_classes]
         if not classes:
             st["outside_classes"] += 1
         if orc:
@@ -279,6 +289,7 @@ def analyse(pid, cfg, ops, verdicts, known):
                 st["covered"] += 1
                 for c in listed:
                     st["known_seen"][known_classes[c]] = st["known_seen"].get(known_classes[c], 0) + 1
+                    st["covered_cases"].setdefault(known_classes[c], []).append(i)
             else:
                 st["oracle_fail_unlisted"].append((i, v))
         if len(st["samples"]) < 3 and v.get("nontrivial"):
